@@ -1,5 +1,5 @@
 (** C13 — the general composition with hypotheses on the ITEM LIST ONLY: a decidable class of item
-    lists ([static_ok]: every numeric item either fills the reader's width or is followed by
+    lists ([static_ok2]: every numeric item either fills the reader's width or is followed by
     something that cannot start with a digit, white-space items are not followed by white space,
     fraction items are followed by neither a digit nor -- for %.f -- a dot, literals are ASCII) whose
     documented renderings the reader takes back for EVERY value; with a sufficient field
@@ -71,7 +71,7 @@ Definition num_full (f : nfield) (p : dpad) : bool :=
   | _ => match p with DZero => true | _ => false end
   end.
 Definition num_static (f : nfield) : bool :=
-  match f with NCentury | NYearMod100 | NIsoYearMod100 | NTimestamp => false | _ => true end.
+  match f with NCentury | NTimestamp => false | _ => true end.
 
 Lemma blen_le_width v width : 0 <= v < 10 ^ width -> 1 <= width -> blen (dec_nonneg v) <= width.
 Proof.
@@ -119,8 +119,16 @@ Proof.
   destruct f; try discriminate Hst; cbn [Proofs.C12.numeric_of numeric_table_expected num_width] in *.
   - (* Year *) date_field Hnv dn Ed. apply FV_inj in Hnv. subst x. destruct (Bd dn eq_refl) as (B1 & _).
     exact (Hyear _ _ _ He B1 (Hnd eq_refl)).
+  - (* YearMod100 *) date_field Hnv dn Ed. cbv zeta in Hnv. destruct (year_of_dn dn <? 0) eqn:Hy; [discriminate Hnv|].
+    apply FV_inj in Hnv. subst x.
+    eexists. apply (accept_unsigned _ 2 false _ p 2 _ rest He); try (change (10 ^ 2) with 100); try lia; try assumption.
+    destruct p; cbn [num_full] in *; [left; apply Hnd; reflexivity|right; left; auto|left; apply Hnd; reflexivity].
   - (* IsoYear *) date_field Hnv dn Ed. apply FV_inj in Hnv. subst x. destruct (Bd dn eq_refl) as (_ & B2 & _).
     exact (Hyear _ _ _ He B2 (Hnd eq_refl)).
+  - (* IsoYearMod100 *) date_field Hnv dn Ed. cbv zeta in Hnv. destruct (fst (iso_of_dn dn) <? 0) eqn:Hy; [discriminate Hnv|].
+    apply FV_inj in Hnv. subst x.
+    eexists. apply (accept_unsigned _ 2 false _ p 2 _ rest He); try (change (10 ^ 2) with 100); try lia; try assumption.
+    destruct p; cbn [num_full] in *; [left; apply Hnd; reflexivity|right; left; auto|left; apply Hnd; reflexivity].
   - (* Quarter *) date_field Hnv dn Ed. destruct (Bd dn eq_refl) as (_ & _ & B3 & _). unfold dn_month in B3.
     destruct (ymd_of_dn dn) as [[yy m] dd] eqn:Eymd. cbn [fst snd] in B3. apply FV_inj in Hnv. subst x.
     eexists. apply (accept_unsigned _ 1 false _ p 1 _ rest He); try lia; try assumption.
@@ -368,11 +376,17 @@ Definition it_static (it : Item) (r : list Item) : bool :=
       end
   | IError => false
   end.
-Fixpoint static_ok (items : list Item) : bool :=
+Fixpoint static_ok2 (items : list Item) : bool :=
   match items with
   | [] => true
-  | it :: r => it_static it r && static_ok r
+  | it :: r => it_static it r && static_ok2 r
   end.
+(* the two-digit years %y %g are printed for years >= 0 only and are sufficient alone only in the pivot
+   window: [static_ok] is the class without them, [static_ok2] the class with them *)
+Definition uses_y2 (it : Item) : bool := match it with INumeric N_YearMod100 _ => true | _ => false end.
+Definition uses_g2 (it : Item) : bool := match it with INumeric N_IsoYearMod100 _ => true | _ => false end.
+Definition static_ok (items : list Item) : bool :=
+  static_ok2 items && negb (existsb uses_y2 items) && negb (existsb uses_g2 items).
 
 Lemma tfield_of_supported spec f : tfield_of spec = Some f -> tfield_supported f = true /\ Proofs.C12.fixed_of f = spec.
 Proof.
@@ -424,7 +438,7 @@ Lemma starts_ws_ascii c r : 0 <= c <= 127 -> starts_ws (c :: r) = is_whitespace 
 Proof. intros H. unfold starts_ws. rewrite next_code_point_ascii by lia. reflexivity. Qed.
 
 (* what the text of a list of the class can start with *)
-Lemma may_sound sv on : sv_bounds sv -> forall items texts, static_ok items = true ->
+Lemma may_sound sv on : sv_bounds sv -> forall items texts, static_ok2 items = true ->
   Forall2 (doc_item sv on) items texts ->
   ascii_b (concat texts) /\
   (may it_digit items = false -> not_digit_start (concat texts) = true) /\
@@ -433,7 +447,7 @@ Lemma may_sound sv on : sv_bounds sv -> forall items texts, static_ok items = tr
 Proof.
   intros Bsv. induction items as [|it r IH]; intros texts Hs HF; inversion HF as [|? t ? ts [Hd _] Hr]; subst.
   - cbn. repeat split; constructor.
-  - cbn [static_ok] in Hs. apply andb_prop in Hs. destruct Hs as [Hit Hsr].
+  - cbn [static_ok2] in Hs. apply andb_prop in Hs. destruct Hs as [Hit Hsr].
     destruct (IH ts Hsr Hr) as (A0 & A1 & A2 & A3).
     destruct (item_head sv it r t Bsv Hit Hd) as [Ha Hh].
     cbn [concat may]. split; [apply ascii_app; assumption|].
@@ -685,14 +699,14 @@ Definition empty_frac_pair (sv : sval) (x : Item * bytes) : Prop :=
 (** for EVERY value: the documented renderings of a list of the class are taken back by the reader,
     white space of the format absorbing the space padding of the number that follows it *)
 Theorem static_accept sv on : sv_bounds sv -> (forall o, sv_off sv = Some o -> o mod 60 = 0) ->
-  forall items texts, static_ok items = true ->
+  forall items texts, static_ok2 items = true ->
   Forall2 (doc_item sv on) items texts ->
   exists ws, unambiguous_b (absorb (combine items texts)) [] = Some ws /\
              Forall (empty_frac_pair sv) (absorb (combine items texts)).
 Proof.
   intros Bsv Hmin. induction items as [|it r IH]; intros texts Hs HF; inversion HF as [|? t ? ts [Hd Hfr] Hr]; subst.
   - exists []. split; [reflexivity|constructor].
-  - cbn [static_ok] in Hs. apply andb_prop in Hs. destruct Hs as [Hit Hsr].
+  - cbn [static_ok2] in Hs. apply andb_prop in Hs. destruct Hs as [Hit Hsr].
     destruct (IH ts Hsr Hr) as (ws & Hws & HE).
     destruct (may_sound sv on Bsv r ts Hsr Hr) as (A0 & A1 & A2 & A3).
     pose proof (text_of_absorb (combine r ts)) as Eta. rewrite text_of_combine in Eta by (exact (F2_length _ _ _ Hr)).
@@ -727,7 +741,7 @@ Proof.
             pose proof (A2 Hm') as Hsw. rewrite <- Eta in Hsw.
             assert (Hsp : split_ws t2' = ([], t2')).
             { apply split_ws_nows. destruct t2' as [|c t2r]; [exact I|].
-              cbn [static_ok] in Hsr. apply andb_prop in Hsr. destruct Hsr as [Hit2 _].
+              cbn [static_ok2] in Hsr. apply andb_prop in Hsr. destruct Hsr as [Hit2 _].
               destruct (item_head sv it2' r2 (c :: t2r) Bsv Hit2 Hd2) as [_ Hh]. cbn [head_ok] in Hh. destruct Hh as (Hc & _).
               cbn [app] in Hsw. rewrite starts_ws_ascii in Hsw by exact Hc. unfold ws_byte. rewrite Hsw. apply andb_false_r. }
             rewrite Hsp in Esp. injection Esp as <- <-. rewrite app_nil_r. auto.
@@ -776,7 +790,7 @@ Proof.
 Qed.
 
 Corollary static_accept_ws sv on : sv_bounds sv -> (forall o, sv_off sv = Some o -> o mod 60 = 0) ->
-  forall items texts, static_ok items = true -> Forall2 (doc_item sv on) items texts ->
+  forall items texts, static_ok2 items = true -> Forall2 (doc_item sv on) items texts ->
   exists ws, unambiguous_ws_b (combine items texts) [] = Some ws.
 Proof.
   intros Bsv Hmin items texts Hs HF.
@@ -901,23 +915,35 @@ Qed.
 
 Lemma static_render sv on (hd ht ho : bool) : (hd = true -> sv_dn sv <> None) -> (ht = true -> sv_sod sv <> None) ->
   (ho = true -> sv_off sv <> None) ->
-  forall items, static_ok items = true -> forallb (it_kind_ok hd ht ho) items = true ->
+  forall items, static_ok2 items = true -> forallb (it_kind_ok hd ht ho) items = true ->
   Forall (fun it => item_frac sv it = None \/ item_frac sv it = on) items ->
+  (forall dn, sv_dn sv = Some dn -> (existsb uses_y2 items = true -> 0 <= year_of_dn dn) /\
+                                      (existsb uses_g2 items = true -> 0 <= fst (iso_of_dn dn))) ->
   exists texts, Forall2 (doc_item sv on) items texts.
 Proof.
-  intros Hhd Hht Hho. induction items as [|it r IH]; intros Hs Hk Hf; [exists []; constructor|].
-  cbn [static_ok forallb] in Hs, Hk. apply andb_prop in Hs. destruct Hs as [Hit Hsr]. apply andb_prop in Hk. destruct Hk as [Hki Hkr].
+  intros Hhd Hht Hho. induction items as [|it r IH]; intros Hs Hk Hf H2; [exists []; constructor|].
+  cbn [static_ok2 forallb] in Hs, Hk. apply andb_prop in Hs. destruct Hs as [Hit Hsr]. apply andb_prop in Hk. destruct Hk as [Hki Hkr].
   inversion Hf as [|? ? Hfi Hfr]; subst.
-  destruct (IH Hsr Hkr Hfr) as (ts & HF).
+  assert (H2r : forall dn, sv_dn sv = Some dn -> (existsb uses_y2 r = true -> 0 <= year_of_dn dn) /\
+                                                   (existsb uses_g2 r = true -> 0 <= fst (iso_of_dn dn))).
+  { intros dn E. destruct (H2 dn E) as [Ay Ag]. cbn [existsb] in Ay, Ag. split; intros Hx; [apply Ay|apply Ag]; rewrite Hx; apply orb_true_r. }
+  destruct (IH Hsr Hkr Hfr H2r) as (ts & HF).
   assert (Hex : exists t, doc_render sv it = Some t).
   { destruct it as [l|l|spec pad|spec|]; cbn [doc_render it_static it_kind_ok] in *; try (eexists; reflexivity).
-    - destruct (nfield_of spec) as [f|]; [|discriminate Hit]. apply andb_prop in Hit. destruct Hit as [Hst _].
+    - destruct (nfield_of spec) as [f|] eqn:Ef0; [|discriminate Hit]. apply andb_prop in Hit. destruct Hit as [Hst _].
       unfold render_num.
       assert (Hwd : width_documented f (dpad_of pad) = true) by (destruct f; try reflexivity; discriminate Hst).
       rewrite Hwd. cbn [negb].
       assert (Hnv : exists x, num_value sv f = FV x).
       { destruct f; try discriminate Hst; cbn [nfield_is_time] in Hki; unfold num_value;
-          try (destruct (sv_dn sv) as [dn|]; [|exfalso; apply (Hhd Hki); reflexivity]);
+          try (destruct (sv_dn sv) as [dn|] eqn:Edn; [|exfalso; apply (Hhd Hki); reflexivity]);
+          cbv zeta;
+          try (match goal with |- context [year_of_dn ?d <? 0] =>
+                 destruct spec; try discriminate Ef0;
+                 replace (year_of_dn d <? 0) with false by (pose proof (proj1 (H2 d eq_refl) eq_refl); lia) end);
+          try (match goal with |- context [fst (iso_of_dn ?d) <? 0] =>
+                 destruct spec; try discriminate Ef0;
+                 replace (fst (iso_of_dn d) <? 0) with false by (pose proof (proj2 (H2 d eq_refl) eq_refl); lia) end);
           try (destruct (sv_sod sv) as [s|]; [|exfalso; apply (Hht Hki); reflexivity]);
           try (destruct (ymd_of_dn dn) as [[yy m] dd]); eexists; reflexivity. }
       destruct Hnv as (x & ->). eexists. reflexivity.
@@ -1002,7 +1028,44 @@ Proof.
     destruct Hvt as [Hsec _]. unfold hh, mm. f_equal; lia.
 Qed.
 
-(** NaiveDate *)
+(* the value-side conditions of the two-digit years: printed for (ISO) years >= 0 only *)
+Definition two_digit_ok (items : list Item) (y iy : Z) : Prop :=
+  (existsb uses_y2 items = true -> 0 <= y) /\ (existsb uses_g2 items = true -> 0 <= iy).
+Lemma static_ok_split items : static_ok items = true ->
+  static_ok2 items = true /\ existsb uses_y2 items = false /\ existsb uses_g2 items = false.
+Proof.
+  unfold static_ok. intros H. apply andb_prop in H. destruct H as [H H3]. apply andb_prop in H. destruct H as [H1 H2].
+  split; [exact H1|]. split; [destruct (existsb uses_y2 items)|destruct (existsb uses_g2 items)]; try reflexivity; discriminate.
+Qed.
+Lemma two_digit_none items y iy : existsb uses_y2 items = false -> existsb uses_g2 items = false -> two_digit_ok items y iy.
+Proof. intros H1 H2. split; intros Hc; congruence. Qed.
+Lemma year_of_dn_yo y o : valid_yo y o = true -> year_of_dn (dn_of_yo y o) = y.
+Proof. intros H. unfold year_of_dn. rewrite (Proofs.C08Days.yo_of_dn_of_yo y o H). reflexivity. Qed.
+
+(** NaiveDate.  The class with the two-digit years: the value-side premises are [two_digit_ok] and the
+    sufficiency of the fields FOR THIS YEAR (the two-digit year alone: 1970..=2069) *)
+Theorem static2_date_roundtrip items :
+  static_ok2 items = true -> forallb (it_kind_ok true false false) items = true ->
+  forall y o d, Proofs.C08Sweeps.repr y o d ->
+  two_digit_ok items y (fst (iso_of_dn (dn_of_yo y o))) ->
+  date_comb_b y (fst (iso_of_dn (dn_of_yo y o))) (shape_parsed (sfields items)) = true ->
+  exists text,
+    Model.Format.write_items (Model.Format.fa_of_date d) items [] = Model.Format.fok text /\
+    (let+ p := parse parsed_new text items in pr_of (to_naive_date p)) = pok d.
+Proof.
+  intros Hs Hk y o d H H2 Hc. set (sv := sv_of_date (dn_of_yo y o)).
+  pose proof (args_bounds _ sv (args_view_date y o d H) ltac:(cbn; lia)) as Bsv.
+  destruct (static_render sv None true false false ltac:(intros _; discriminate) ltac:(intros Hx; discriminate Hx) ltac:(intros Hx; discriminate Hx) items Hs Hk) as (texts & HF).
+  { rewrite Forall_forall. intros it Hin. left. rewrite forallb_forall in Hk. exact (kind_no_time_item sv true false it (Hk it Hin)). }
+  { intros dn E. pose proof (Some_inj (dn_of_yo y o) dn E) as E'. subst dn.
+    rewrite (year_of_dn_yo y o (proj1 (proj2 H))). exact H2. }
+  destruct (static_accept sv None Bsv ltac:(let Hq := fresh in intros ? Hq; discriminate Hq) items texts Hs HF) as (ws & HU & HE).
+  pose proof (eq_trans (map_fst_absorb (combine items texts)) (map_fst_combine items texts (F2_length _ _ _ HF))) as Hl.
+  destruct (real_presence items _ ws Hl HU) as [HP _].
+  exists (concat texts).
+  apply (general_date_roundtrip y o d items texts ws H HF (or_intror HU)).
+  rewrite (date_comb_ext _ _ _ _ HP). exact Hc.
+Qed.
 Theorem static_date_roundtrip items :
   static_ok items = true -> forallb (it_kind_ok true false false) items = true -> static_date_ok items = true ->
   forall y o d, Proofs.C08Sweeps.repr y o d ->
@@ -1010,16 +1073,8 @@ Theorem static_date_roundtrip items :
     Model.Format.write_items (Model.Format.fa_of_date d) items [] = Model.Format.fok text /\
     (let+ p := parse parsed_new text items in pr_of (to_naive_date p)) = pok d.
 Proof.
-  intros Hs Hk Hc y o d H. set (sv := sv_of_date (dn_of_yo y o)).
-  pose proof (args_bounds _ sv (args_view_date y o d H) ltac:(cbn; lia)) as Bsv.
-  destruct (static_render sv None true false false ltac:(intros _; discriminate) ltac:(intros Hx; discriminate Hx) ltac:(intros Hx; discriminate Hx) items Hs Hk) as (texts & HF).
-  { rewrite Forall_forall. intros it Hin. left. rewrite forallb_forall in Hk. exact (kind_no_time_item sv true false it (Hk it Hin)). }
-  destruct (static_accept sv None Bsv ltac:(let Hq := fresh in intros ? Hq; discriminate Hq) items texts Hs HF) as (ws & HU & HE).
-  pose proof (eq_trans (map_fst_absorb (combine items texts)) (map_fst_combine items texts (F2_length _ _ _ HF))) as Hl.
-  destruct (real_presence items _ ws Hl HU) as [HP _].
-  exists (concat texts).
-  apply (general_date_roundtrip y o d items texts ws H HF (or_intror HU)).
-  rewrite (date_comb_ext _ _ _ _ HP). apply date_comb_mono. exact Hc.
+  intros Hs Hk Hc y o d H. destruct (static_ok_split items Hs) as (Hs2 & N1 & N2).
+  exact (static2_date_roundtrip items Hs2 Hk y o d H (two_digit_none items _ _ N1 N2) (date_comb_mono _ _ _ Hc)).
 Qed.
 
 (** NaiveTime: [k] is the precision class of the fraction items of the list (3, 6 or 9; any of them
@@ -1032,12 +1087,14 @@ Theorem static_time_roundtrip items k :
     Model.Format.write_items (Model.Format.fa_of_time t) items [] = Model.Format.fok text /\
     (let+ q := parse parsed_new text items in pr_of (to_naive_time q)) = pok (static_time_value items k t).
 Proof.
-  intros Hs Hk Hc Hfc Hk3 t Hvt. set (sv := sv_of_time t). set (on := on_of sv k).
+  intros Hs0 Hk Hc Hfc Hk3 t Hvt. destruct (static_ok_split items Hs0) as (Hs & _ & _).
+  set (sv := sv_of_time t). set (on := on_of sv k).
   pose proof (args_bounds _ sv (args_view_time t Hvt) ltac:(cbn; lia)) as Bsv.
   assert (Hon : forall n, on = Some n -> 0 <= n <= 999999999) by (apply on_of_range; [cbn; lia|exact Hk3]).
   destruct (static_render sv on false true false ltac:(intros Hx; discriminate Hx) ltac:(intros _; discriminate) ltac:(intros Hx; discriminate Hx) items Hs Hk) as (texts & HF).
   { rewrite Forall_forall. intros it Hin. unfold frac_class_ok in Hfc. rewrite forallb_forall in Hfc.
     exact (frac_class_item sv k it (Hfc it Hin)). }
+  { intros dn E. discriminate E. }
   destruct (static_accept sv on Bsv ltac:(let Hq := fresh in intros ? Hq; discriminate Hq) items texts Hs HF) as (ws & HU & HE).
   pose proof (eq_trans (map_fst_absorb (combine items texts)) (map_fst_combine items texts (F2_length _ _ _ HF))) as Hl.
   destruct (real_presence items _ ws Hl HU) as [HP HN].
@@ -1048,6 +1105,35 @@ Proof.
 Qed.
 
 (** NaiveDateTime *)
+Theorem static2_ndt_roundtrip items k :
+  static_ok2 items = true -> forallb (it_kind_ok true true false) items = true -> static_time_ok items = true ->
+  frac_class_ok k items = true -> k = 3 \/ k = 6 \/ k = 9 ->
+  forall y o d t, Proofs.C08Sweeps.repr y o d -> valid_time t ->
+  two_digit_ok items y (fst (iso_of_dn (dn_of_yo y o))) ->
+  date_comb_b y (fst (iso_of_dn (dn_of_yo y o))) (shape_parsed (sfields items)) = true ->
+  exists text,
+    Model.Format.write_items (Model.Format.fa_of_ndt (Model.DateTime.mk_ndt d t)) items [] = Model.Format.fok text /\
+    (let+ q := parse parsed_new text items in pr_of (to_naive_datetime_with_offset q 0)) =
+      pok (Model.DateTime.mk_ndt d (static_time_value items k t)).
+Proof.
+  intros Hs Hk Hct Hfc Hk3 y o d t H Hvt H2 Hcd. set (sv := sv_of_ndt (dn_of_yo y o) t). set (on := on_of sv k).
+  pose proof (args_bounds _ sv (args_view_ndt y o d t H Hvt) ltac:(cbn; lia)) as Bsv.
+  assert (Hon : forall n, on = Some n -> 0 <= n <= 999999999) by (apply on_of_range; [cbn; lia|exact Hk3]).
+  destruct (static_render sv on true true false ltac:(intros _; discriminate) ltac:(intros _; discriminate) ltac:(intros Hx; discriminate Hx) items Hs Hk) as (texts & HF).
+  { rewrite Forall_forall. intros it Hin. unfold frac_class_ok in Hfc. rewrite forallb_forall in Hfc.
+    exact (frac_class_item sv k it (Hfc it Hin)). }
+  { intros dn E. pose proof (Some_inj (dn_of_yo y o) dn E) as E'. subst dn.
+    rewrite (year_of_dn_yo y o (proj1 (proj2 H))). exact H2. }
+  destruct (static_accept sv on Bsv ltac:(let Hq := fresh in intros ? Hq; discriminate Hq) items texts Hs HF) as (ws & HU & HE).
+  pose proof (eq_trans (map_fst_absorb (combine items texts)) (map_fst_combine items texts (F2_length _ _ _ HF))) as Hl.
+  destruct (real_presence items _ ws Hl HU) as [HP HN].
+  assert (HCd : date_comb_b y (fst (iso_of_dn (dn_of_yo y o))) (apply_ws ws parsed_new) = true).
+  { rewrite (date_comb_ext _ _ _ _ HP). exact Hcd. }
+  destruct (general_ndt_roundtrip y o d t on items texts ws H Hvt Hon HF (or_intror HU) HCd
+              (time_comb_transfer _ _ Hct HP HN)) as (Hw & Hp & V4 & V5).
+  exists (concat texts). split; [exact Hw|]. rewrite Hp.
+  rewrite (time_value_static sv k items _ ws t eq_refl Hvt Hct Hl HE HU V4 V5). reflexivity.
+Qed.
 Theorem static_ndt_roundtrip items k :
   static_ok items = true -> forallb (it_kind_ok true true false) items = true ->
   static_date_ok items = true -> static_time_ok items = true ->
@@ -1058,21 +1144,8 @@ Theorem static_ndt_roundtrip items k :
     (let+ q := parse parsed_new text items in pr_of (to_naive_datetime_with_offset q 0)) =
       pok (Model.DateTime.mk_ndt d (static_time_value items k t)).
 Proof.
-  intros Hs Hk Hcd Hct Hfc Hk3 y o d t H Hvt. set (sv := sv_of_ndt (dn_of_yo y o) t). set (on := on_of sv k).
-  pose proof (args_bounds _ sv (args_view_ndt y o d t H Hvt) ltac:(cbn; lia)) as Bsv.
-  assert (Hon : forall n, on = Some n -> 0 <= n <= 999999999) by (apply on_of_range; [cbn; lia|exact Hk3]).
-  destruct (static_render sv on true true false ltac:(intros _; discriminate) ltac:(intros _; discriminate) ltac:(intros Hx; discriminate Hx) items Hs Hk) as (texts & HF).
-  { rewrite Forall_forall. intros it Hin. unfold frac_class_ok in Hfc. rewrite forallb_forall in Hfc.
-    exact (frac_class_item sv k it (Hfc it Hin)). }
-  destruct (static_accept sv on Bsv ltac:(let Hq := fresh in intros ? Hq; discriminate Hq) items texts Hs HF) as (ws & HU & HE).
-  pose proof (eq_trans (map_fst_absorb (combine items texts)) (map_fst_combine items texts (F2_length _ _ _ HF))) as Hl.
-  destruct (real_presence items _ ws Hl HU) as [HP HN].
-  assert (HCd : date_comb_b y (fst (iso_of_dn (dn_of_yo y o))) (apply_ws ws parsed_new) = true).
-  { rewrite (date_comb_ext _ _ _ _ HP). apply date_comb_mono. exact Hcd. }
-  destruct (general_ndt_roundtrip y o d t on items texts ws H Hvt Hon HF (or_intror HU) HCd
-              (time_comb_transfer _ _ Hct HP HN)) as (Hw & Hp & V4 & V5).
-  exists (concat texts). split; [exact Hw|]. rewrite Hp.
-  rewrite (time_value_static sv k items _ ws t eq_refl Hvt Hct Hl HE HU V4 V5). reflexivity.
+  intros Hs Hk Hcd Hct Hfc Hk3 y o d t H Hvt. destruct (static_ok_split items Hs) as (Hs2 & N1 & N2).
+  exact (static2_ndt_roundtrip items k Hs2 Hk Hct Hfc Hk3 y o d t H Hvt (two_digit_none items _ _ N1 N2) (date_comb_mono _ _ _ Hcd)).
 Qed.
 
 (** * 9. the class is inhabited: the families of the other files and many more are members, by
@@ -1176,3 +1249,71 @@ Example class_format_strings :
   fmt_ndt_class 9 [37;101;32;37;66;32;37;89;44;32;37;108;58;37;77;32;37;112] = true /\
   fmt_ndt_class 9 [37;118;32;37;84] = true.
 Proof. vm_compute. repeat split. Qed.
+
+(** the class with the two-digit years, over format strings: %D = %x = "%m/%d/%y", "%y%m%d", ... for the
+    years of the pivot window *)
+Theorem class2_date_parse_from_str fmt items :
+  items_of fmt = Val (Some items) ->
+  static_ok2 items = true -> forallb (it_kind_ok true false false) items = true ->
+  forall y o d, Proofs.C08Sweeps.repr y o d ->
+  two_digit_ok items y (fst (iso_of_dn (dn_of_yo y o))) ->
+  date_comb_b y (fst (iso_of_dn (dn_of_yo y o))) (shape_parsed (sfields items)) = true ->
+  exists text,
+    Model.Format.delayed_display (Model.Format.fa_of_date d) (Model.Strftime.sf_new fmt) = Model.Format.fok text /\
+    date_parse_from_str text fmt = pok d.
+Proof.
+  intros Hi Hs Hk y o d H H2 Hc. destruct (static2_date_roundtrip items Hs Hk y o d H H2 Hc) as (text & Hw & Hp).
+  pose proof (sf_take_length _ _ _ _ Hi) as Hl. cbn [List.length] in Hl. rewrite Nat.add_0_r in Hl.
+  destruct (sf_lift fmt items _ text Hi Hl Hw) as [Hd Hps].
+  exists text. split; [exact Hd|]. unfold date_parse_from_str. rewrite Hps. exact Hp.
+Qed.
+Theorem class2_ndt_parse_from_str fmt items k :
+  items_of fmt = Val (Some items) ->
+  static_ok2 items = true -> forallb (it_kind_ok true true false) items = true -> static_time_ok items = true ->
+  frac_class_ok k items = true -> k = 3 \/ k = 6 \/ k = 9 ->
+  forall y o d t, Proofs.C08Sweeps.repr y o d -> valid_time t ->
+  two_digit_ok items y (fst (iso_of_dn (dn_of_yo y o))) ->
+  date_comb_b y (fst (iso_of_dn (dn_of_yo y o))) (shape_parsed (sfields items)) = true ->
+  exists text,
+    Model.Format.delayed_display (Model.Format.fa_of_ndt (Model.DateTime.mk_ndt d t)) (Model.Strftime.sf_new fmt) = Model.Format.fok text /\
+    ndt_parse_from_str text fmt = pok (Model.DateTime.mk_ndt d (static_time_value items k t)).
+Proof.
+  intros Hi Hs Hk Hct Hfc Hk3 y o d t H Hvt H2 Hcd.
+  destruct (static2_ndt_roundtrip items k Hs Hk Hct Hfc Hk3 y o d t H Hvt H2 Hcd) as (text & Hw & Hp).
+  pose proof (sf_take_length _ _ _ _ Hi) as Hl. cbn [List.length] in Hl. rewrite Nat.add_0_r in Hl.
+  destruct (sf_lift fmt items _ text Hi Hl Hw) as [Hd Hps].
+  exists text. split; [exact Hd|]. unfold ndt_parse_from_str. rewrite Hps. exact Hp.
+Qed.
+
+(* %D and %x (both "%m/%d/%y"): in the class with the two-digit years; the fields are sufficient exactly
+   for the years of the pivot window *)
+Definition D_ITEMS : list Item := [num0 N_Month; Literal [47]; num0 N_Day; Literal [47]; num0 N_YearMod100].
+Example two_digit_members :
+  items_of [37; 68] = Val (Some D_ITEMS) /\ items_of [37; 120] = Val (Some D_ITEMS) /\
+  static_ok2 D_ITEMS = true /\ static_ok D_ITEMS = false /\ forallb (it_kind_ok true false false) D_ITEMS = true /\
+  date_comb_b 1970 1970 (shape_parsed (sfields D_ITEMS)) = true /\ date_comb_b 2069 2069 (shape_parsed (sfields D_ITEMS)) = true /\
+  date_comb_b 1969 1969 (shape_parsed (sfields D_ITEMS)) = false /\ date_comb_b 2070 2070 (shape_parsed (sfields D_ITEMS)) = false.
+Proof. vm_compute. repeat split. Qed.
+(* hence: every date of 1970..=2069 round-trips through %D / %x *)
+Corollary date_D_roundtrip y o d fmt : Proofs.C08Sweeps.repr y o d -> 1970 <= y <= 2069 -> fmt = [37; 68] \/ fmt = [37; 120] ->
+  exists text,
+    Model.Format.delayed_display (Model.Format.fa_of_date d) (Model.Strftime.sf_new fmt) = Model.Format.fok text /\
+    date_parse_from_str text fmt = pok d.
+Proof.
+  intros H Hy Hf.
+  assert (Hi : items_of fmt = Val (Some D_ITEMS)) by (destruct Hf as [-> | ->]; vm_compute; reflexivity).
+  apply (class2_date_parse_from_str fmt D_ITEMS Hi ltac:(vm_compute; reflexivity) ltac:(vm_compute; reflexivity) y o d H).
+  - split; [intros _; lia|intros Hc; vm_compute in Hc; discriminate Hc].
+  - assert (E : forall IY, date_comb_b y IY (shape_parsed (sfields D_ITEMS)) = ((1970 <=? y) && (y <=? 2069))).
+    { intros IY. unfold date_comb_b, grp_b, det_b. cbv zeta.
+      change (p_year (shape_parsed (sfields D_ITEMS))) with (@None Z).
+      change (p_year_div_100 (shape_parsed (sfields D_ITEMS))) with (@None Z).
+      change (p_year_mod_100 (shape_parsed (sfields D_ITEMS))) with (Some 0).
+      change (p_isoyear (shape_parsed (sfields D_ITEMS))) with (@None Z).
+      change (p_isoyear_div_100 (shape_parsed (sfields D_ITEMS))) with (@None Z).
+      change (p_isoyear_mod_100 (shape_parsed (sfields D_ITEMS))) with (@None Z).
+      change (p_month (shape_parsed (sfields D_ITEMS))) with (Some 0).
+      change (p_day (shape_parsed (sfields D_ITEMS))) with (Some 0).
+      cbn [some_b negb andb orb]. destruct ((1970 <=? y) && (y <=? 2069)); reflexivity. }
+    rewrite E. lia.
+Qed.
